@@ -23,3 +23,24 @@
 ; strictly below
 (define-fun segBelow ((t String) (r String)) Bool
   (and (not (= t r)) (str.prefixof (ite (str.suffixof "/" r) r (str.++ r "/")) t)))
+
+; ---- fragments used by the guided counterexample search (models become realistic) ----
+(define-fun reSeg () RegLan (re.+ (re.range "a" "z")))
+(define-fun isPlainAbs ((x String)) Bool (str.in_re x (re.+ (re.++ (str.to_re "/") reSeg))))
+(define-fun isPlainRel ((x String)) Bool (str.in_re x (re.++ reSeg (re.* (re.++ (str.to_re "/") reSeg)))))
+; zero or more leading "../" followed by a plain relative path, or just "..", "../.."
+(define-fun isDotDotRel ((x String)) Bool
+  (str.in_re x (re.union (re.++ (re.* (str.to_re "../")) reSeg (re.* (re.++ (str.to_re "/") reSeg)))
+                         (re.++ (re.* (str.to_re "../")) (str.to_re "..")))))
+(define-fun isSeg ((x String)) Bool (str.in_re x reSeg))
+
+; ---- os / io/fs ----
+(declare-fun fileMode (Iface) Int)          ; fs.FileInfo.Mode() as a pure getter
+(declare-fun fileIsDir (Iface) Bool)
+(declare-fun fileSize (Iface) Int)
+(declare-fun isNotExist (Iface) Bool)
+(declare-fun isPermission (Iface) Bool)
+(declare-fun splitCount (String String) Int)
+(define-fun modeSymlinkBit ((m Int)) Bool (= (mod (div m 134217728) 2) 1))   ; fs.ModeSymlink = 1<<27
+(define-fun modeDirBit ((m Int)) Bool (= (mod (div m 2147483648) 2) 1))      ; fs.ModeDir = 1<<31
+(declare-fun TrimSpace (String) String)
